@@ -3161,10 +3161,12 @@ impl LineBuf {
 				MotionKind::On(target_pos)
 			}
 			MotionCmd(_count,Motion::WholeBuffer) => MotionKind::Exclusive((0,self.grapheme_indices().len())),
-			MotionCmd(_count,ref buffer_end @ (Motion::BeginningOfBuffer | Motion::EndOfBuffer)) if verb.is_none() && !self.is_selecting() => {
-				// As a plain motion 'gg' and 'G' go to the first non-blank of the first / last line
+			MotionCmd(count,ref buffer_end @ (Motion::BeginningOfBuffer | Motion::EndOfBuffer)) if verb.is_none() && !self.is_selecting() => {
+				// As a plain motion 'gg' and 'G' go to the first non-blank of the first / last line,
+				// '[N]G' of line N (a count of one cannot be told from no count)
 				let target_line = match buffer_end {
 					Motion::BeginningOfBuffer => 0,
+					_ if count > 1 => (count - 1).min(self.last_line_number()),
 					_ => self.last_line_number()
 				};
 				let Some((start,end)) = self.line_bounds(target_line) else {
@@ -3183,12 +3185,13 @@ impl LineBuf {
 				self.saved_col = Some(cursor_col);
 				MotionKind::LineOffset(-(lines_up as isize))
 			}
-			MotionCmd(_count,Motion::EndOfBuffer) => {
-				// down to the last line (the position after a final newline is not a line)
-				let lines_down = self.last_line_number().saturating_sub(self.cursor_line_number());
+			MotionCmd(count,Motion::EndOfBuffer) => {
+				// to the last line (the position after a final newline is not a line), '[N]G' to line N
+				let last_line = self.last_line_number();
+				let target_line = if count > 1 { (count - 1).min(last_line) } else { last_line };
 				let cursor_col = self.cursor_col();
 				self.saved_col = Some(cursor_col);
-				MotionKind::LineOffset(lines_down as isize)
+				MotionKind::LineOffset(target_line as isize - self.cursor_line_number() as isize)
 			}
 			MotionCmd(count,Motion::ToColumn) => {
 				let start = ClampedUsize::new(self.start_of_line(), self.cursor.max, false);
@@ -3703,8 +3706,9 @@ impl LineBuf {
 							self.cursor.set(start.min(end));
 						}
 						MotionKind::LineRange(..) |
-						MotionKind::InclusiveWithTargetCol(..) if verb == Verb::Delete && (matches!(motion, MotionKind::LineRange(..)) || range_start == Some(cursor_line_start)) => {
-							// 'dd', 'dj', 'dip', ':2,3d': the lines are gone; the cursor goes to the first non-blank of
+						MotionKind::LineOffset(_) |
+						MotionKind::InclusiveWithTargetCol(..) if verb == Verb::Delete && (matches!(motion, MotionKind::LineRange(..) | MotionKind::LineOffset(_)) || range_start == Some(cursor_line_start)) => {
+							// 'dd', 'dj', 'dG', 'dip', ':2,3d': the lines are gone; the cursor goes to the first non-blank of
 							// the line that took their place (of the last line, when they were at the end)
 							self.cursor.set(range_start.unwrap_or(0));
 							let line_start = self.start_of_line();
